@@ -463,7 +463,7 @@ def run_property(pid, spec, tier, seed, replay=None):
     extra = {}
     for j in jobs:
         st = j.get("stats", {})
-        samples += st.get("samples", [])[:4]
+        samples += (st.get("samples") or [])[:4]
         if st.get("input_distribution"):
             dist[j["name"]] = st["input_distribution"]
         for k, v in st.items():
